@@ -2,7 +2,10 @@
 
 package blocklist
 
-import "sort"
+import (
+	"reflect"
+	"sort"
+)
 
 // VerifEntries returns the in-memory lists without taking the lock: it is called from the
 // cooperative scheduler's release hook and after all tasks have finished, when no other
@@ -27,4 +30,24 @@ func (b *BlockList) VerifEntries() (exact, wild, white []string) {
 func (b *BlockList) VerifMu() any { return &b.mu }
 
 // VerifVersions returns the snapshot counter and the last version that reached the disk.
-func (b *BlockList) VerifVersions() (version, persisted uint64) { return b.version, b.lastPersisted }
+// The fields are read through reflection so that a change of their representation (a plain
+// counter becoming an atomic one) does not stop the simulation binary from building.
+func (b *BlockList) VerifVersions() (version, persisted uint64) {
+	v := reflect.ValueOf(b).Elem()
+	return verifUint(v.FieldByName("version")), verifUint(v.FieldByName("lastPersisted"))
+}
+
+func verifUint(v reflect.Value) uint64 {
+	if !v.IsValid() {
+		return 0
+	}
+	switch v.Kind() {
+	case reflect.Uint, reflect.Uint32, reflect.Uint64:
+		return v.Uint()
+	case reflect.Int, reflect.Int32, reflect.Int64:
+		return uint64(v.Int())
+	case reflect.Struct: // sync/atomic.Uint64 and friends keep the value in a field named v
+		return verifUint(v.FieldByName("v"))
+	}
+	return 0
+}
